@@ -7,7 +7,7 @@ use crate::common::*;
 use linfa::traits::FitWith;
 use linfa::{DatasetBase, ParamGuard};
 use linfa_clustering::{IncrKMeansError, KMeans, KMeansInit, KMeansValidParams};
-use linfa_nn::distance::{Distance, L1Dist, L2Dist, LInfDist};
+use linfa_nn::distance::{Distance, L1Dist, L2Dist, LInfDist, LpDist};
 use lvmc_core::{guarded, json, Value, Violation};
 use ndarray::Array2;
 use rand_xoshiro::rand_core::SeedableRng;
@@ -109,6 +109,8 @@ pub(crate) enum Metric {
     L2,
     L1,
     LInf,
+    /// Minkowski distance (sum |d|^p)^(1/p); `rdistance` is the plain distance
+    Lp(f64),
 }
 
 pub(crate) fn metric_of(s: &str) -> Metric {
@@ -116,6 +118,8 @@ pub(crate) fn metric_of(s: &str) -> Metric {
         "L2" => Metric::L2,
         "L1" => Metric::L1,
         "Linf" => Metric::LInf,
+        "Lp3" => Metric::Lp(3.0),
+        "Lp1.5" => Metric::Lp(1.5),
         _ => panic!("unknown metric"),
     }
 }
@@ -125,6 +129,7 @@ pub(crate) fn rdist(m: Metric, a: &[f64], b: &[f64]) -> f64 {
         Metric::L2 => a.iter().zip(b).map(|(x, y)| (x - y) * (x - y)).sum(),
         Metric::L1 => a.iter().zip(b).map(|(x, y)| (x - y).abs()).sum(),
         Metric::LInf => a.iter().zip(b).map(|(x, y)| (x - y).abs()).fold(0.0, f64::max),
+        Metric::Lp(p) => a.iter().zip(b).map(|(x, y)| (x - y).abs().powf(p)).sum::<f64>().powf(1.0 / p),
     }
 }
 
@@ -226,6 +231,9 @@ pub(crate) fn ref_step(metric: Metric, prev: &KState, batch: &[Vec<f64>]) -> Opt
             }
         }
         let shift = matrix_dist(metric, &prev.c, &c);
+        if let Metric::Lp(_) = metric {
+            exact = false;
+        }
         if metric == Metric::L2 {
             // the sum of squares of grid numbers is exact; the root is exact iff it is a grid
             // number whose square gives the sum back
@@ -284,6 +292,7 @@ pub fn run_km(case: &KmCase, out: &mut Out) {
         Metric::L2 => run_km_d(case, L2Dist, out),
         Metric::L1 => run_km_d(case, L1Dist, out),
         Metric::LInf => run_km_d(case, LInfDist, out),
+        Metric::Lp(p) => run_km_d(case, LpDist(p), out),
     }
 }
 
